@@ -64,6 +64,11 @@ CLAIMED = {
    text="Every string up to length 6 (8 thorough) over { } % - quote space newline a, and random strings up to 64 KiB, are tokenized and checked against the partition law (sources concatenate to the input, trim tokens zero-width, line = start + preceding newlines); strings without openers must render to themselves; every self-contained raw/comment body must come out verbatim / vanish without being evaluated; string values of any bytes must be printed exactly.",
    note="Trusted: the reference scan that decides whether a raw/comment body keeps to itself (bodies that swallow their closer are outside the statement and are excluded and counted).",
    ref="DESIGN.md 7.C05"),
+ "C06": dict(
+   technique="property-based testing: bounded-exhaustive token sequences plus rapid-generated well-nested / one-edit-away trees against a reference acceptor (stack machine), tree isomorphism and a marker render",
+   text="Every token sequence up to length 5 (6 thorough) over the 22-symbol alphabet of block, clause, end, plain, object and text tokens is parsed and compared with a reference stack-machine acceptor; rejected sources must render nothing; accepted ones must have a render tree equal to the reference tree and must render exactly the markers of the first branches. Random trees to depth 40 and their one-edit neighbours extend the scope.",
+   note="Trusted: the 60-line reference acceptor in c06_test.go (its clause-admission table restates the statement). Branch choice when else is not the last clause, and a for with several else clauses, are left to C10/C11 (unspecified here).",
+   ref="DESIGN.md 7.C06"),
 }
 
 REASON_PENDING = "check not built yet in this snapshot of /verif (planned: see DESIGN.md section 7); nothing is claimed for it"
